@@ -1,0 +1,14 @@
+//go:build verif
+
+package column
+
+// verifHook, when set (verification builds only), is called at the yield points of the commit
+// and snapshot protocols so that a schedule found by the checker can be forced on the real build.
+var verifHook func(point int, arg uint64)
+
+// verifYield marks a point at which the verification scheduler may switch goroutines.
+func verifYield(point int, arg uint64) {
+	if h := verifHook; h != nil {
+		h(point, arg)
+	}
+}
